@@ -518,3 +518,222 @@ Proof.
     + apply bias_in_interval_midpoint; assumption.
     + apply bias_in_interval_free; auto. lia.
 Qed.
+
+(* ------------------------------------------------------------------ *)
+(* F. an eps-KKT point is nearly optimal                                *)
+(* ------------------------------------------------------------------ *)
+
+Lemma sumn_exch n m (f : nat -> nat -> Q) :
+  sumn n (fun a => sumn m (fun b => f a b)) == sumn m (fun b => sumn n (fun a => f a b)).
+Proof.
+  induction n.
+  - cbn [sumn]. symmetry. apply sumn_0. intros. reflexivity.
+  - cbn [sumn]. rewrite IHn.
+    rewrite (sumn_add m (fun b => sumn n (fun a => f a b)) (fun b => f n b)). reflexivity.
+Qed.
+
+Lemma sumn_nonneg m f : (forall a, (a < m)%nat -> 0 <= f a) -> 0 <= sumn m f.
+Proof.
+  intros H. rewrite <- (sumn_0 m (fun _ => 0)) by (intros; reflexivity).
+  apply sumn_le. assumption.
+Qed.
+
+Lemma sumn_nonneg_zero m f :
+  (forall a, (a < m)%nat -> 0 <= f a) -> sumn m f == 0 -> forall a, (a < m)%nat -> f a == 0.
+Proof.
+  induction m; intros Hf Hs a Ha; [lia|].
+  cbn [sumn] in Hs.
+  assert (0 <= sumn m f) by (apply sumn_nonneg; intros; apply Hf; lia).
+  assert (0 <= f m) by (apply Hf; lia).
+  destruct (Nat.eq_dec a m) as [->|N]; [lra|].
+  apply IHm; [intros; apply Hf; lia|lra|lia].
+Qed.
+
+Lemma qmul_le_l x y z : 0 <= z -> x <= y -> z * x <= z * y.
+Proof. intros Hz H. rewrite !(Qmult_comm z). apply Qmult_le_compat_r; assumption. Qed.
+
+(* sum d = 0 and g_a <= g_c + eps whenever d_a > 0 > d_c  ==>  g.d <= eps * sum of the positive parts *)
+Lemma kkt_direction_bound n (g d : nat -> Q) eps :
+  0 <= eps ->
+  sumn n d == 0 ->
+  (forall a c, (a < n)%nat -> (c < n)%nat -> 0 < d a -> d c < 0 -> g a - g c <= eps) ->
+  sumn n (fun a => g a * d a) <= eps * sumn n (fun a => if qltb 0 (d a) then d a else 0).
+Proof.
+  intros He Hs HK.
+  set (p := fun a => if qltb 0 (d a) then d a else 0).
+  set (q := fun a => if qltb (d a) 0 then - d a else 0).
+  assert (Hp : forall a, 0 <= p a) by (intros a; unfold p; qcases; lra).
+  assert (Hq : forall a, 0 <= q a) by (intros a; unfold q; qcases; lra).
+  assert (Hd : forall a, d a == p a - q a) by (intros a; unfold p, q; qcases; lra).
+  assert (Hpp : forall a, 0 < p a -> 0 < d a).
+  { intros a. unfold p. qcases; lra. }
+  assert (Hqq : forall a, 0 < q a -> d a < 0).
+  { intros a. unfold q. qcases; lra. }
+  set (P := sumn n p).
+  assert (HPq : sumn n q == P).
+  { unfold P. rewrite (sumn_ext n d (fun a => p a - q a)) in Hs by (intros; apply Hd).
+    rewrite sumn_sub in Hs. lra. }
+  assert (HP0 : 0 <= P) by (apply sumn_nonneg; intros; apply Hp).
+  set (S1 := sumn n (fun a => g a * p a)).
+  set (S2 := sumn n (fun a => g a * q a)).
+  assert (Hgd : sumn n (fun a => g a * d a) == S1 - S2).
+  { unfold S1, S2. rewrite <- sumn_sub. apply sumn_ext. intros a _. rewrite (Hd a). ring. }
+  rewrite Hgd.
+  destruct (Qlt_le_dec 0 P) as [Ppos|Pz].
+  - (* step 1 *)
+    assert (St1 : forall c, (c < n)%nat -> 0 < q c -> S1 <= (g c + eps) * P).
+    { intros c Hc Hqc. unfold S1, P. rewrite <- sumn_scal.
+      apply sumn_le. intros a Ha.
+      destruct (Qlt_le_dec 0 (p a)) as [Pa|Pa].
+      - apply Qmult_le_compat_r; [|apply Hp].
+        pose proof (HK a c Ha Hc (Hpp a Pa) (Hqq c Hqc)). lra.
+      - assert (p a == 0) by (pose proof (Hp a); lra). rewrite H. lra. }
+    (* step 2 *)
+    assert (St2 : forall c, (c < n)%nat -> q c * S1 <= q c * ((g c + eps) * P)).
+    { intros c Hc. destruct (Qlt_le_dec 0 (q c)) as [Qc|Qc].
+      - apply qmul_le_l; [apply Hq|]. apply St1; assumption.
+      - assert (q c == 0) by (pose proof (Hq c); lra). rewrite H. lra. }
+    assert (St3 : sumn n (fun c => q c * S1) <= sumn n (fun c => q c * ((g c + eps) * P)))
+      by (apply sumn_le; exact St2).
+    rewrite sumn_scal_r in St3.
+    rewrite (sumn_ext n (fun c => q c * ((g c + eps) * P))
+               (fun c => (g c * q c) * P + q c * (eps * P))) in St3 by (intros; ring).
+    rewrite sumn_add, sumn_scal_r, sumn_scal_r in St3. fold S2 in St3. rewrite HPq in St3.
+    apply (Qmult_le_l _ _ P Ppos).
+    setoid_replace (P * (S1 - S2)) with (P * S1 - S2 * P) by ring.
+    lra.
+  - assert (PZ : P == 0) by lra.
+    assert (Zp : forall a, (a < n)%nat -> p a == 0).
+    { apply sumn_nonneg_zero; [intros; apply Hp|exact PZ]. }
+    assert (Zq : forall a, (a < n)%nat -> q a == 0).
+    { apply sumn_nonneg_zero; [intros; apply Hq|lra]. }
+    assert (S1 == 0).
+    { unfold S1. apply sumn_0. intros a Ha. rewrite (Zp a Ha). ring. }
+    assert (S2 == 0).
+    { unfold S2. apply sumn_0. intros a Ha. rewrite (Zq a Ha). ring. }
+    rewrite PZ. lra.
+Qed.
+
+Section NearOptimal.
+Variable n : nat.
+Variable K0 : nat -> nat -> Q.
+Hypothesis Hsym : Ksym K0.
+Hypothesis Hpsd : forall d : nat -> Q, 0 <= sumn n (fun a => d a * sumn n (fun b => K0 a b * d b)).
+
+Definition quad (x y : nat -> Q) : Q := sumn n (fun a => x a * sumn n (fun b => K0 a b * y b)).
+(* dual objective and its gradient on plain vectors (identity permutation) *)
+Definition objv (lin al : nat -> Q) : Q :=
+  sumn n (fun a => lin a * al a) - (1 # 2) * sumn n (fun a => al a * sumn n (fun b => K0 a b * al b)).
+Definition gradv (lin al : nat -> Q) (a : nat) : Q := lin a - sumn n (fun b => K0 a b * al b).
+
+Lemma quad_ext x x' y y' :
+  (forall a, (a < n)%nat -> x a == x' a) -> (forall a, (a < n)%nat -> y a == y' a) ->
+  quad x y == quad x' y'.
+Proof.
+  intros Hx Hy. unfold quad. apply sumn_ext. intros a Ha. rewrite (Hx a Ha).
+  rewrite (sumn_ext n (fun b => K0 a b * y b) (fun b => K0 a b * y' b)); [reflexivity|].
+  intros b Hb. rewrite (Hy b Hb). reflexivity.
+Qed.
+
+Lemma quad_add_l x x' y : quad (fun a => x a + x' a) y == quad x y + quad x' y.
+Proof.
+  unfold quad. rewrite <- sumn_add. apply sumn_ext. intros; ring.
+Qed.
+
+Lemma quad_add_r x y y' : quad x (fun a => y a + y' a) == quad x y + quad x y'.
+Proof.
+  unfold quad. rewrite <- sumn_add. apply sumn_ext. intros a Ha.
+  rewrite (sumn_ext n (fun b => K0 a b * (y b + y' b)) (fun b => K0 a b * y b + K0 a b * y' b))
+    by (intros; ring).
+  rewrite sumn_add. ring.
+Qed.
+
+(* Fubini + symmetry of K *)
+Lemma quad_sym x y : quad x y == quad y x.
+Proof.
+  unfold quad.
+  rewrite (sumn_ext n (fun a => x a * sumn n (fun b => K0 a b * y b))
+             (fun a => sumn n (fun b => x a * (K0 a b * y b))))
+    by (intros; rewrite sumn_scal; reflexivity).
+  rewrite sumn_exch. apply sumn_ext. intros b Hb.
+  rewrite <- sumn_scal. apply sumn_ext. intros a Ha. rewrite (Hsym a b). ring.
+Qed.
+
+(* the objective is a concave quadratic: objv(al + d) = objv al + g.d - 1/2 d K d *)
+Lemma objv_expand lin al d :
+  objv lin (fun a => al a + d a) ==
+  objv lin al + sumn n (fun a => gradv lin al a * d a) - (1 # 2) * quad d d.
+Proof.
+  unfold objv. fold (quad (fun a => al a + d a) (fun a => al a + d a)). fold (quad al al).
+  rewrite quad_add_l, !quad_add_r.
+  rewrite (sumn_ext n (fun a => lin a * (al a + d a)) (fun a => lin a * al a + lin a * d a))
+    by (intros; ring).
+  rewrite sumn_add.
+  rewrite (sumn_ext n (fun a => gradv lin al a * d a)
+             (fun a => lin a * d a - d a * sumn n (fun b => K0 a b * al b)))
+    by (intros; unfold gradv; ring).
+  rewrite sumn_sub. fold (quad d al). pose proof (quad_sym al d). lra.
+Qed.
+
+Lemma objv_ext lin al al' : (forall a, (a < n)%nat -> al a == al' a) -> objv lin al == objv lin al'.
+Proof.
+  intros H. unfold objv. fold (quad al al). fold (quad al' al').
+  rewrite (quad_ext al al' al al' H H).
+  rewrite (sumn_ext n (fun a => lin a * al a) (fun a => lin a * al' a)); [reflexivity|].
+  intros a Ha. rewrite (H a Ha). reflexivity.
+Qed.
+
+(* al: eps-KKT point of  max objv  s.t.  L <= al <= U, sum al = c;  al': any feasible point *)
+Theorem eps_KKT_near_optimal (lin L U al al' : nat -> Q) eps :
+  0 <= eps ->
+  (forall a, (a < n)%nat -> L a <= al a /\ al a <= U a) ->
+  (forall a, (a < n)%nat -> L a <= al' a /\ al' a <= U a) ->
+  sumn n al == sumn n al' ->
+  (forall a c, (a < n)%nat -> (c < n)%nat -> al a < U a -> L c < al c ->
+               gradv lin al a - gradv lin al c <= eps) ->
+  objv lin al' - objv lin al <= eps * sumn n (fun a => U a - L a).
+Proof.
+  intros He Hb Hb' Hs HK.
+  set (d := fun a => al' a - al a).
+  assert (E : objv lin al' == objv lin (fun a => al a + d a)).
+  { apply objv_ext. intros a _. unfold d. ring. }
+  rewrite E, objv_expand.
+  pose proof (Hpsd d) as Hq. fold (quad d d) in Hq.
+  assert (Hsd : sumn n d == 0).
+  { unfold d. rewrite sumn_sub. lra. }
+  pose proof (kkt_direction_bound n (gradv lin al) d eps He Hsd) as B.
+  assert (B1 : sumn n (fun a => gradv lin al a * d a) <=
+               eps * sumn n (fun a => if qltb 0 (d a) then d a else 0)).
+  { apply B. intros a c Ha Hc Da Dc. apply HK; auto.
+    - destruct (Hb' a Ha). unfold d in Da. lra.
+    - destruct (Hb' c Hc). unfold d in Dc. lra. }
+  assert (B2 : sumn n (fun a => if qltb 0 (d a) then d a else 0) <= sumn n (fun a => U a - L a)).
+  { apply sumn_le. intros a Ha. destruct (Hb a Ha), (Hb' a Ha). unfold d. qcases; lra. }
+  pose proof (qmul_le_l _ _ eps He B2). lra.
+Qed.
+
+End NearOptimal.
+
+(* the hypotheses of F are satisfiable with a non-trivial K: n = 2, K = identity *)
+Example eps_KKT_near_optimal_hyps_sat :
+  let K0 := fun a b : nat => if (a =? b)%nat then 1 else 0 in
+  Ksym K0 /\ forall d : nat -> Q, 0 <= sumn 2 (fun a => d a * sumn 2 (fun b => K0 a b * d b)).
+Proof.
+  split.
+  - intros p q. cbn beta. rewrite (Nat.eqb_sym q p). reflexivity.
+  - intros d. cbn [sumn Nat.eqb]. nra.
+Qed.
+
+Print Assumptions largest_up_ub.
+Print Assumptions largest_up_attained.
+Print Assumptions smallest_down_lb.
+Print Assumptions smallest_down_attained.
+Print Assumptions checkKKT_svm_is_max_violation.
+Print Assumptions checkKKT_svm_attained.
+Print Assumptions checkKKT_svm_eps_multiplier.
+Print Assumptions checkKKT_box_is_max_violation.
+Print Assumptions checkKKT_box_eps.
+Print Assumptions objective_formula.
+Print Assumptions fval_is_objective.
+Print Assumptions bias_in_interval.
+Print Assumptions eps_KKT_near_optimal.
